@@ -37,7 +37,7 @@ TEXT = {
         'technique': 'bounded-exhaustive grammar enumeration with differential reference parser',
     },
     'C07': {
-        'level': 'For every generated valid container document: all proper prefixes (code point and UTF-8 code-unit cuts), 12 non-whitespace suffixes, every closing bracket swapped or removed must yield Undefined; plus every string of <=N units over the JSON alphabet: any accepted text must be a complete tree that survives Stringify+Parse.',
+        'level': 'For every generated valid container document: all proper prefixes (code point and UTF-8 code-unit cuts), every non-whitespace 7-bit unit and 7 whitespace look-alikes as suffix, every closing bracket swapped or removed must yield Undefined; plus every string of <=N units over the JSON alphabet: any accepted text must be a complete tree that survives Stringify+Parse.',
         'design_ref': 'DESIGN.md §5 C07',
         'note': 'Lenient number forms (+1, 0x1F, .5) are complete values for this parser and outside the statement\'s family.',
         'technique': 'bounded-exhaustive enumeration of rejection families on the implementation',
